@@ -15,9 +15,11 @@ name='TestSeed.*' # all demo tests of the file (controls pass either way; at lea
 echo "demo: $demo pkg $pkg test $name"
 (cd lib && go build ./... ) || { echo "BUILD FAILS"; exit 1; }
 tags=""; grep -q '^//go:build verif' $demo && tags="-tags verif"
-with=$(cd lib && go test $tags -vet=off -count=1 -run "^$name" $pkg 2>&1 | tail -1)
+# demos of data races need the race detector (SEED_RACE=1, or the agent's report says so)
+if [ -n "$SEED_RACE" ] || grep -qi 'go test -race' SEED_REPORT.md 2>/dev/null; then tags="$tags -race -gcflags=all=-d=checkptr=0"; fi
+with=$(cd lib && go test $tags -vet=off -count=1 -run "^$name" $pkg 2>&1 | grep -E "^(ok|FAIL|---|panic)" | tail -1)
 git apply -R $d/patch.diff || { echo "cannot revert patch"; exit 1; }
-without=$(cd lib && go test $tags -vet=off -count=1 -run "^$name" $pkg 2>&1 | tail -1)
+without=$(cd lib && go test $tags -vet=off -count=1 -run "^$name" $pkg 2>&1 | grep -E "^(ok|FAIL|---|panic)" | tail -1)
 git apply $d/patch.diff
 echo "with change:    $with"; echo "without change: $without"
 # run the checks against /repo with the patch applied
